@@ -66,7 +66,71 @@ type caseSpec struct {
 	Mode  string            `json:"mode"` // tws twr ows owr
 	Ops   []opSpec          `json:"ops"`
 	Salt  int64             `json:"salt"` // content salt
-	Src   string            `json:"src"`  // "model" | "rand" | "proto"
+	Src   string            `json:"src"`  // "model" | "rand" | "proto" | "limit"
+	// MaxFile is the maximum staging file size: "" unlimited, "u:<n>" n model
+	// units, "eq:<c>" / "m1:<c>" / "half:<c>" the size of content c, one byte less,
+	// half of it, "tiny" (less than one block), "blk" (on a block boundary),
+	// "inblk" (inside a block).
+	MaxFile   string `json:"maxfile,omitempty"`
+	StageMode string `json:"stagemode,omitempty"` // "" (mutagen data directory) | "neighboring" | "internal"
+	FileMode  uint32 `json:"filemode,omitempty"`  // default file mode, 0 = version default
+	DirMode   uint32 `json:"dirmode,omitempty"`   // default directory mode, 0 = version default
+	Unit      int    `json:"unit,omitempty"`      // > 0: contents are sized in model units of this many bytes
+}
+
+// contentUnit is the model unit size of the case being run (0: free sizes).
+var contentUnit int
+
+func modelUnits(name string) int {
+	switch name {
+	case "c1":
+		return 2
+	case "c2":
+		return 3
+	case "empty":
+		return 0
+	}
+	return 1
+}
+
+// resolveMaxFile turns the symbolic limit of a case into bytes.
+func resolveMaxFile(cs *caseSpec) int {
+	n := resolveMaxFileRaw(cs)
+	if n < 1 {
+		n = 1 // the configuration treats 0 as "not configured"; the smallest real limit is one byte
+	}
+	return n
+}
+
+func resolveMaxFileRaw(cs *caseSpec) int {
+	size := func(c string) int { return len(contentBytes(cs.Salt, c)) }
+	switch {
+	case cs.MaxFile == "":
+		return Unlimited
+	case cs.MaxFile == "tiny":
+		return 500
+	case cs.MaxFile == "blk":
+		return 2048
+	case cs.MaxFile == "inblk":
+		return 2500
+	case strings.HasPrefix(cs.MaxFile, "u:"):
+		var n int
+		fmt.Sscanf(cs.MaxFile[2:], "%d", &n)
+		if n >= Unlimited/1000 {
+			return Unlimited
+		}
+		return n * cs.Unit
+	case strings.HasPrefix(cs.MaxFile, "eq:"):
+		return size(cs.MaxFile[3:])
+	case strings.HasPrefix(cs.MaxFile, "m1:"):
+		if n := size(cs.MaxFile[3:]); n > 0 {
+			return n - 1
+		}
+		return 0
+	case strings.HasPrefix(cs.MaxFile, "half:"):
+		return size(cs.MaxFile[5:]) / 2
+	}
+	panic("bad maxfile " + cs.MaxFile)
 }
 
 var modeOf = map[string]core.SynchronizationMode{
@@ -81,6 +145,17 @@ var modeOf = map[string]core.SynchronizationMode{
 func contentBytes(salt int64, name string) []byte {
 	if name == "empty" {
 		return []byte{}
+	}
+	if contentUnit > 0 { // model-sized: units * contentUnit bytes, first unit shared
+		n := modelUnits(name) * contentUnit
+		out := make([]byte, n)
+		rand.New(rand.NewSource(salt*7919 + 17)).Read(out[:contentUnit])
+		var h int64
+		for _, ch := range name {
+			h = h*131 + int64(ch)
+		}
+		rand.New(rand.NewSource(salt*104729 + h)).Read(out[contentUnit:])
+		return out
 	}
 	common := make([]byte, 6000)
 	rand.New(rand.NewSource(salt*7919 + 17)).Read(common)
@@ -138,6 +213,7 @@ type world struct {
 	sigs     []*rsync.Signature // their base signatures
 	pendReq  map[string][]byte  // path -> planned content (bytes) for pending paths
 	hung     bool
+	skip     string // top-level name inside the root that is the (internal) staging directory
 }
 
 var dataDirSet bool
@@ -154,7 +230,19 @@ func ensureDataDir(c *vlib.Ctx) string {
 
 var caseCounter int
 
+// worldOpts are the endpoint configuration values a case may vary beyond the basics.
+type worldOpts struct {
+	maxFile   int // Unlimited = not configured
+	stageMode string
+	fileMode  uint32
+	dirMode   uint32
+}
+
 func newWorld(c *vlib.Ctx, alpha bool, mode string, max int, symlinks core.SymbolicLinkMode, salt int64) (*world, error) {
+	return newWorldOpts(c, alpha, mode, max, symlinks, salt, worldOpts{maxFile: Unlimited})
+}
+
+func newWorldOpts(c *vlib.Ctx, alpha bool, mode string, max int, symlinks core.SymbolicLinkMode, salt int64, o worldOpts) (*world, error) {
 	data := ensureDataDir(c)
 	caseCounter++
 	w := &world{c: c, salt: salt, clock: 0}
@@ -170,9 +258,28 @@ func newWorld(c *vlib.Ctx, alpha bool, mode string, max int, symlinks core.Symbo
 	}
 	w.staging = filepath.Join(data, "staging", w.sid+"-"+name)
 	cfg := &synchronization.Configuration{
-		SynchronizationMode: modeOf[mode],
-		WatchMode:           synchronization.WatchMode_WatchModeNoWatch,
-		SymbolicLinkMode:    symlinks,
+		SynchronizationMode:  modeOf[mode],
+		WatchMode:            synchronization.WatchMode_WatchModeNoWatch,
+		SymbolicLinkMode:     symlinks,
+		DefaultFileMode:      o.fileMode,
+		DefaultDirectoryMode: o.dirMode,
+	}
+	// the staging root as the walker will look for it (observed layout, not asked from mutagen)
+	hidden := ".mutagen-temporary-staging-" + w.sid + "-" + name
+	switch o.stageMode {
+	case "neighboring":
+		cfg.StageMode = synchronization.StageMode_StageModeNeighboring
+		w.staging = filepath.Join(w.dir, hidden)
+	case "internal":
+		cfg.StageMode = synchronization.StageMode_StageModeInternal
+		w.staging = filepath.Join(w.root, hidden)
+		w.skip = hidden
+	}
+	if o.maxFile != Unlimited {
+		cfg.MaximumStagingFileSize = uint64(o.maxFile)
+		if o.maxFile == 0 {
+			cfg.MaximumStagingFileSize = 1 // 0 means "not configured"; the smallest real limit is one byte
+		}
 	}
 	if max != Unlimited {
 		cfg.MaximumEntryCount = uint64(max)
@@ -241,7 +348,7 @@ func (w *world) addPath(p string) {
 	w.paths = append(w.paths, p)
 }
 
-func (w *world) disk() map[string]any { return walkTree(w.root) }
+func (w *world) disk() map[string]any { return walkTreeSkip(w.root, w.skip) }
 func (w *world) store() []any         { return walkStore(w.staging, w.paths) }
 
 func joinPath(p []string) string { return strings.Join(p, "/") }
@@ -282,7 +389,7 @@ func (w *world) doStage(rec map[string]any, paths []string, digests [][]byte, pl
 	}
 	reqEnc := []any{}
 	for i, p := range paths {
-		reqEnc = append(reqEnc, map[string]any{"path": splitPath(p), "d": hex.EncodeToString(digests[i])})
+		reqEnc = append(reqEnc, map[string]any{"path": splitPath(p), "d": hex.EncodeToString(digests[i]), "sz": len(planned[p])})
 	}
 	rec["req"] = reqEnc
 	rec["disk0"] = w.disk()
@@ -371,6 +478,23 @@ func transmissionsFor(kind string, target []byte, sig *rsync.Signature) []*rsync
 			push(o)
 		}
 		out = append(out, done)
+	case "split": // the exact content in many small operations: 700-byte data, single blocks
+		for _, o := range ops {
+			if len(o.Data) > 0 {
+				for off := 0; off < len(o.Data); off += 700 {
+					end := off + 700
+					if end > len(o.Data) {
+						end = len(o.Data)
+					}
+					push(&rsync.Operation{Data: append([]byte{}, o.Data[off:end]...)})
+				}
+			} else {
+				for b := uint64(0); b < o.Count; b++ {
+					push(&rsync.Operation{Start: o.Start + b, Count: 1})
+				}
+			}
+		}
+		out = append(out, done)
 	case "corrupt": // flipped bytes
 		flipped := false
 		for _, o := range ops {
@@ -430,7 +554,7 @@ func (w *world) doRecv(rec map[string]any, kinds []string) {
 		}
 		target := w.pendReq[p]
 		dec.queue = append(dec.queue, transmissionsFor(kind, target, w.sigs[i])...)
-		plan = append(plan, map[string]any{"path": splitPath(p), "kind": kind, "d": sha1Bytes(target)})
+		plan = append(plan, map[string]any{"path": splitPath(p), "kind": kind, "d": sha1Bytes(target), "sz": len(target)})
 		if kind == "abort" || kind == "abort0" {
 			break
 		}
@@ -520,7 +644,11 @@ func specToMap(cs *caseSpec) map[string]any {
 }
 
 func runCase(c *vlib.Ctx, cid string, cs *caseSpec) {
-	w, err := newWorld(c, cs.Alpha, cs.Mode, cs.Max, core.SymbolicLinkMode_SymbolicLinkModePortable, cs.Salt)
+	contentUnit = cs.Unit
+	defer func() { contentUnit = 0 }()
+	maxFile := resolveMaxFile(cs)
+	w, err := newWorldOpts(c, cs.Alpha, cs.Mode, cs.Max, core.SymbolicLinkMode_SymbolicLinkModePortable, cs.Salt,
+		worldOpts{maxFile: maxFile, stageMode: cs.StageMode, fileMode: cs.FileMode, dirMode: cs.DirMode})
 	if err != nil {
 		vlib.Fatal("cannot create endpoint: %v", err)
 	}
@@ -538,7 +666,8 @@ func runCase(c *vlib.Ctx, cid string, cs *caseSpec) {
 	}
 	ro := cs.Alpha && (cs.Mode == "ows" || cs.Mode == "owr")
 	c.Emit(map[string]any{"ev": "New", "cid": cid, "begin": true, "in": specToMap(cs),
-		"max": cs.Max, "alpha": cs.Alpha, "mode": cs.Mode, "ro": ro, "disk1": w.disk()})
+		"max": cs.Max, "maxfile": maxFile, "stagemode": cs.StageMode, "filemode": int(cs.FileMode), "dirmode": int(cs.DirMode),
+		"alpha": cs.Alpha, "mode": cs.Mode, "ro": ro, "disk1": w.disk()})
 	interesting := false
 	for i, op := range cs.Ops {
 		rec := map[string]any{"ev": op.Op, "cid": cid, "i": i}
